@@ -604,6 +604,7 @@ func (f *frame) keepAt(where, pos string, at *ssa.BasicBlock) {
 	if at != nil && f.names != nil {
 		st := f.st
 		env.lookup = func(name string) (Val, bool) { return f.lookupName(name, at, st) }
+		f.currentParams(env)
 	}
 	for i := range x.top.Keeps {
 		c := x.top.Keeps[i]
@@ -799,6 +800,7 @@ func (f *frame) cutJoin(b *ssa.BasicBlock, phiVals map[*ssa.Phi]Val) {
 	{
 		st := f.st
 		env.lookup = func(name string) (Val, bool) { return f.lookupName(name, b, st) }
+		f.currentParams(env)
 	}
 	for i := range x.top.Keeps {
 		c := x.top.Keeps[i]
@@ -1020,9 +1022,30 @@ func (f *frame) loopBackEdge(li *loopInfo, from *ssa.BasicBlock, cond string) {
 }
 
 // invEnv builds the spec environment for loop invariants of li.
+// currentParams: inside the body (loop invariants, join invariants, call-site assertions) a
+// parameter name denotes the variable's current value, which differs from the argument when
+// the parameter is assigned to; such names are resolved through the debug references.
+func (f *frame) currentParams(env *Env) {
+	if !f.top || f.names == nil {
+		return
+	}
+	for _, p := range f.fn.Params {
+		reassigned := false
+		for _, d := range f.names[p.Name()] {
+			if d.X != ssa.Value(p) && !d.IsAddr {
+				reassigned = true
+			}
+		}
+		if reassigned {
+			delete(env.vars, p.Name())
+		}
+	}
+}
+
 func (f *frame) invEnv(li *loopInfo, over map[ssa.Value]Val) *Env {
 	x := f.x
 	env := x.baseEnv(f.st)
+	f.currentParams(env)
 	st := f.st
 	env.lookup = func(name string) (Val, bool) {
 		if name == "idx" {
